@@ -15,8 +15,13 @@ from . import common as C
 ID = "C15"
 DRIVER = "drv_c15"
 STREAMS = {
-    "needle-b": {"relevant": True, "desc": "list(iter_find_needle(BytesIO, needle, start, max)) + tell(), io.DEFAULT_BUFFER_SIZE patched to B"},
+    "needle-b": {"relevant": True, "desc": "list(iter_find_needle(BytesIO, needle, start, 0)) + tell(), io.DEFAULT_BUFFER_SIZE patched to B; "
+                 "no limit: the property fixes the answer completely, any difference from the model contradicts it"},
     "needle-f": {"relevant": True, "desc": "same on a real file opened 'rb'"},
+    "needlelim-b": {"relevant": False, "desc": "with max_offset != 0 on BytesIO: the property only demands soundness + completeness before the limit "
+                    "(checked by the oracle); the exact cut is correspondence-only"},
+    "needlelim-f": {"relevant": False, "desc": "same on a real file"},
+    "needle-edge": {"relevant": False, "desc": "outside the property's domain (empty needle, B = 0): model/code agreement only"},
     "art-b": {"relevant": True, "desc": "list(iter_artifactkit_payloads(BytesIO, start, maxrange)) + tell()"},
     "art-f": {"relevant": True, "desc": "same on a real file opened 'rb'"},
     "find": {"relevant": False, "desc": "CPython bytes.find(needle, start) vs the Lean model bytesFind (trusted-base exercise)"},
@@ -74,23 +79,17 @@ def naive_art(hay: bytes, s0: int, maxrange):
 # adapters
 # ----------------------------------------------------------------------------------------------
 
-_TMP = None
-
-
 def _open(kind: str, hay: bytes):
-    global _TMP
+    """BytesIO, or a real (regular, buffered) file opened 'rb'; the directory entry is removed at once."""
     if kind == "b":
         return io.BytesIO(hay)
-    if _TMP is None or _TMP[0] != os.getpid():
-        fd, path = tempfile.mkstemp(prefix="c15_", suffix=".bin")
-        os.close(fd)
-        import atexit
-
-        atexit.register(lambda p=path: os.path.exists(p) and os.unlink(p))
-        _TMP = (os.getpid(), path)
-    with open(_TMP[1], "wb") as w:
-        w.write(hay)
-    return open(_TMP[1], "rb")
+    fd, path = tempfile.mkstemp(prefix="c15_", suffix=".bin")
+    try:
+        with os.fdopen(fd, "wb") as w:
+            w.write(hay)
+        return open(path, "rb")
+    finally:
+        os.unlink(path)
 
 
 def opt(t):
@@ -152,7 +151,7 @@ def oracle(stream, line, out):
         got = C.unints(toks[1])
         truth = [i for i in naive_occ(hay, needle) if i >= s0]
         if maxoff == 0:
-            return got == truth and int(toks[2]) == max(s0, len(hay))
+            return got == truth
         tset = set(truth)
         if any(g not in tset for g in got):
             return False  # limit soundness
@@ -204,7 +203,8 @@ def all_strings(maxlen, minlen=0):
 
 
 def needle_line(kind, B, hay, needle, start, maxoff, initpos=0):
-    return (f"needle-{kind}", f"needle {kind} {B} {C.hx(hay)} {C.hx(needle)} {'none' if start is None else start} {maxoff} {initpos}")
+    stream = "needle-edge" if (not needle or B < 1) else (f"needlelim-{kind}" if maxoff else f"needle-{kind}")
+    return (stream, f"needle {kind} {B} {C.hx(hay)} {C.hx(needle)} {'none' if start is None else start} {maxoff} {initpos}")
 
 
 def art_line(kind, hay, start, maxrange, initpos=0):
@@ -225,6 +225,8 @@ def gen_art_file(rng):
         if positions and rng.random() < 0.4:
             # inside the previous record: size field, key, hints or payload area
             pos = positions[-1] + rng.choice([4, 5, 8, 11, 12, 16, 19, 20, 21, 24])
+        elif positions and rng.random() < 0.6:
+            pos = prev_end + rng.choice([0, 0, 1, 2, 7, 30])  # right after the previous record
         else:
             pos = rng.randrange(0, max(1, total + 4))
         r = rng.random()
@@ -243,6 +245,7 @@ def gen_art_file(rng):
             buf += bytes(pos - len(buf))
         buf[pos:pos + len(rec)] = rec
         positions.append(pos)
+        prev_end = pos + len(rec)
     hay = bytes(buf)
     if positions and rng.random() < 0.35:
         # truncate somewhere inside the last record (header, size, key, hints, payload)
@@ -314,8 +317,8 @@ def gen(tier, rng, shard, nshards):
                 yield needle_line(kind, max(B, 1), hay, hay, rng.choice(starts), rng.choice([0, 2, 3]))
 
     # ---- (5) long haystacks, occurrences planted at k*B - j (straddling every block boundary)
-    plan = [(7, 600 if thorough else 150, 6), (64, 500 if thorough else 120, 6), (8192, 120 if thorough else 24, 3),
-            (1, 60 if thorough else 20, 40), (3, 200 if thorough else 50, 10)]
+    plan = [(7, 8000 if thorough else 1600, 6), (64, 5000 if thorough else 800, 6), (8192, 800 if thorough else 160, 3),
+            (1, 600 if thorough else 120, 40), (3, 3000 if thorough else 480, 10)]
     for B, count, maxblocks in plan:
         for _ in range(max(1, count // nshards)):
             nl = rng.choice([1, 1, 2, 2, 3, 4, 5, 6, 8, B, B + 1, B + 3, 2 * B + 1] if B <= 7 else [1, 2, 3, 4, 8, 16, 63, 64, 65, 130] if B == 64 else [1, 2, 4, 5, 16, 300])
@@ -380,7 +383,7 @@ def gen(tier, rng, shard, nshards):
             if n >= 4:
                 yield art_line(kind_of(k), hay, rng.choice([None, 0, 1, 2]), rng.choice([None, 0, 1, 2, n - 4, n]), rng.choice([0, 0, 1, 2]))
     # ---- (7) ArtifactKit: planted headers
-    for _ in range((6000 if thorough else 1200) // nshards):
+    for _ in range((48000 if thorough else 8000) // nshards):
         hay, positions = gen_art_file(rng)
         kind = "f" if rng.random() < 0.3 else "b"
         if kind == "f" and any(len(hay) >= q + 8 and int.from_bytes(hay[q + 4:q + 8], "little") > 10 ** 6 for q in range(len(hay))):
